@@ -485,8 +485,13 @@ class Ctx:
             "wall_s": round(time.time() - self.t0, 2),
             "violations": n_viol,
         }
-        d = VERIF / "evidence"
-        d.mkdir(exist_ok=True)
+        # evidence describes runs against /repo itself; runs against another source root (mutation and
+        # refactoring experiments via GINJAX_SRC) are kept apart
+        if os.path.realpath(REPO_SRC) == os.path.realpath("/repo/src"):
+            d = VERIF / "evidence"
+        else:
+            d = VERIF / "scratch" / "evidence_other_src"
+        d.mkdir(parents=True, exist_ok=True)
         (d / f"{self.prop_id}.json").write_text(json.dumps(ev, indent=1, default=str))
 
 
